@@ -18,6 +18,8 @@ def cmp_jobs(tier):
             variants = [0, 1, 2] if tier == "quick" else [0, 1, 2, 3]
         for v in variants:
             d = {"KIND": kind}
+            if nm == "path" and tier == "quick":
+                d["NK"] = 2         # three path keys: 120 s (measured), two: 15 s; the thorough tier runs three
             name = "C09.cmp.%s" % nm
             if v is not None:
                 d["VF_THR"] = v
@@ -130,6 +132,7 @@ PATH_NOTE = ("path kind: operations that search a non-empty tree are not run in 
              "verdict in 600 s).  The path comparator and create_src's path case are quantified in C09.cmp.path in "
              "all three call forms; register_mod_src / deregister_mod_src / the tree are kind-independent code that "
              "the other six kinds exercise")
+QUICK_WIDE = ("tmr", "task")      # kinds that get the left-leaning shape and the one-source pre-state in the quick tier
 QUICK_CLS = ("eq0", "eq1", "mid-r", "mid-l", "far32", "far31", "frac", "same-sum", "prefix")
 
 
@@ -146,11 +149,15 @@ def reg_jobs(tier):
                         if tier == "quick":
                             if npre == 2 and cls not in QUICK_CLS:
                                 continue
-                            if npre == 1 and cls not in ("inv", "above", "null", "nullpath", "nullfn"):
+                            if npre == 2 and ((op == 0 and cls == "eq0") or (op == 1 and cls.startswith("far"))
+                                              or (nm == "tmr" and cls == "far31")):
+                                continue
+                            if npre == 1 and cls not in ("inv", "null", "nullpath", "nullfn") \
+                                    and not (cls == "above" and nm in QUICK_WIDE):
                                 continue
                             if npre == 0 and not (op == 0 and cls == "below"):
                                 continue
-                            if (npre, shape) == (2, 1) and cls not in ("eq1", "mid-l"):
+                            if (npre, shape) == (2, 1) and not (nm in QUICK_WIDE and (op, cls) in ((0, "mid-l"), (1, "eq1"))):
                                 continue
                         js.append(reg_job(kind, npre, shape, op, cls, k2, extra))
                 elif op == 5:
@@ -159,7 +166,7 @@ def reg_jobs(tier):
                     for w in range(npre):
                         if nm == "path":
                             continue        # see PATH_NOTE
-                        if tier == "quick" and not (two and (shape == 0 or w == 1)):
+                        if tier == "quick" and not (two and (shape == 0 or (w == 1 and nm in QUICK_WIDE))):
                             continue
                         js.append(reg_job(kind, npre, shape, op, w=w))
                 else:
@@ -171,20 +178,104 @@ def reg_jobs(tier):
     return js
 
 
+SUB_SRC = REG_SRC + ["Lib/core/ps.c", "Lib/structs/list.c"]
+TOPICS = {0: "same0", 1: "same1", 2: "new", 3: "null"}
+
+
+def sub_job(npre, op, topic=None, dup=False, timeout=600):
+    d = {"KIND": 0, "NPRE": npre, "OP": op, "VF_MANAGE_SRCS": fl("manage_srcs", "mod.c"),
+         "VF_CREATE_SRC": fl("create_src", "src.c"), "VF_RESET_MODULE": fl("reset_module", "mod.c")}
+    name = "C09.sub.n%d.%s" % (npre, {0: "subscribe", 1: "unsubscribe", 2: "stop", 6: "count"}[op])
+    if topic is not None:
+        d["TOPIC"] = topic
+        name += "." + TOPICS[topic]
+    if dup:
+        d["VF_DUP"] = None
+        name += ".dup"
+    return Job(name, "l1/c09_reg.c", sources=SUB_SRC, extra_harness=["common/vf_defs.c"],
+               remove=["m_ctx", "fetch_ms"], fsa=1024, layer="l1", backend="cadical", defines=d,
+               src_defines={"FEDEDP_LIBMODULE_VERIF_MAP_SIZE": 4},
+               unwind=12, unwindset={k: v for k, v in REG_UNWIND.items() if not k.endswith("_walk")}, common_fp=False,
+               fp=core_fp(mem_dtors=[SRC_DTOR, SUB_DTOR], comps=[fl("fdcmp", "src.c")], extra=MEMHOOK_FP),
+               native={"sources": ["Lib/core/main.c", "Lib/utils/mem.c", "Lib/mem/mem.c", "Lib/structs/stack.c",
+                                   "Lib/structs/queue.c", "Lib/structs/map.c", "Lib/structs/list.c", "Lib/core/ps.c"]},
+               symbolic=["module state (4)", "flag word of the call (any priority combination, AUTOFREE, ONESHOT)",
+                         "AUTOFREE bit of every stored subscription", "token count"],
+               bounds="pre-state: %d subscriptions (topics are per-job constants, the call spells its topic in "
+                      "another buffer), one operation; subscription table of 4 slots (hook)" % npre,
+               timeout=timeout, mem_gb=12)
+
+
+def sub_jobs(tier):
+    js = []
+    for npre in (0, 1, 2):
+        for op in (0, 1):
+            for topic in TOPICS:
+                if topic in (0, 1) and topic >= npre:
+                    continue
+                if tier == "quick" and ((npre == 0 and topic == 3) or (npre == 1 and topic != 0)):
+                    continue
+                js.append(sub_job(npre, op, topic))
+                if op == 0 and topic in (0, 1) and (tier != "quick" or npre == 2):
+                    js.append(sub_job(npre, op, topic, dup=True))
+                if op == 1 and topic in (0, 1) and tier != "quick":
+                    js.append(sub_job(npre, op, topic, dup=True))
+        if npre:
+            js.append(sub_job(npre, 2))
+        js.append(sub_job(npre, 6))
+    return js
+
+
 META = {
-    "functions": [],
-    "stubs": [],
-    "bounds": "",
-    "outside": "",
-    "assumptions": [],
+    "functions": ["src.c: m_mod_src_register_{fd,tmr,sgn,path,pid,task,thresh}, m_mod_src_deregister_*, register_mod_src, "
+                  "deregister_mod_src, create_src (+ fill_src), init_src, fdcmp/tmrcmp/sgncmp/pathcmp/pidcmp/taskcmp/"
+                  "threshcmp, src_priv_dtor, start_task, m_mod_src_len",
+                  "ps.c: m_mod_ps_subscribe, m_mod_ps_unsubscribe, subscribtions_dtor",
+                  "mod.c: manage_srcs (pause/resume/stop), reset_module (subscriptions at stop), m_mod_is",
+                  "bst.c: m_bst_new/insert/remove/len, iterator, remove_node (registry unit)", "map.c (subscriptions)",
+                  "mem.c: m_mem_new/ref/unref", "main.c: mem_dtor", "utils: str_not_empty, mem_strdup"],
+    "stubs": ["poll_set_new_evt = returns 0, counts ADD/RM per source, stores / resets the private descriptor like epoll.c",
+              "m_thpool_new / m_thpool_add (below the real start_task) = count", "close() = count per descriptor number",
+              "dup() = unreachable (asserted)", "regcomp/regfree = accept everything", "m_ctx() = the harness context",
+              "fetch_ms = arbitrary clock", "memhook._free = counting wrapper around free()",
+              "c09_cmp.c only: the search tree is a mock that calls the comparator exactly as bst.c:bst_find does "
+              "(comp(data, node->userptr)) against every stored source and records the signs"],
+    "bounds": "comparator contract: 3 keys per kind at full width (paths: strings of 1..2 arbitrary chars; 2 keys in the "
+              "quick tier), thresholds: inactive_ms < 2^40 with activity_freq 0 / integer activity_freq <= 2^20 with "
+              "inactive_ms 0 / both classes mixed / (thorough) any inactive_ms with any finite activity_freq >= 0. "
+              "Registry unit: pre-states of 0..2 sources of one kind (all tree shapes), one operation per job, the "
+              "identifying values are per-job constants, one job per order class (equal to either stored key, below, "
+              "between, above, difference >= 2^31 / 2^32, fraction apart, invalid, NULL); subscriptions: 0..2 stored, "
+              "table of 4 slots",
+    "outside": "trees of more than 3 sources and removal of a node with two children (C11); symbolic identifying values "
+               "through the real tree (measured: no verdict, see c09_reg.c) - the link is: contract for all values "
+               "(c09_cmp.c) + tree correctness for any comparator satisfying it (C11); M_SRC_DUP for descriptors "
+               "(the stored key is the duplicate, unknown to the caller) and for paths; NaN / negative activity_freq; "
+               "failure of the poll layer (register_mod_src returns -errno but keeps the source); regular-expression "
+               "matching of topics; loop restart (whole-core scenarios); allocation failure. " + PATH_NOTE,
+    "assumptions": ["bst.c calls the comparator only as comp(data, node->userptr) in bst_find (read off the source; C11 "
+                    "verifies bst.c itself)",
+                    "a polled non-descriptor source holds an arbitrary private descriptor >= 0 in fd_src.fd"],
 }
 
 
 def jobs(tier):
-    return cmp_jobs(tier) + reg_jobs(tier)
+    return cmp_jobs(tier) + reg_jobs(tier) + sub_jobs(tier)
 
 
 MANIFEST = {
-    "text": "",
-    "note": "",
+    "text": "Bounded model checking of the real source registry (src.c, ps.c subscriptions, manage_srcs/reset_module of "
+            "mod.c) with the real search tree, map and ref-counted blocks: (a) per kind, the real comparator reached "
+            "through the real register/deregister wrappers and create_src answers as ONE strict weak order whose "
+            "equivalence is key equality in all three forms the core calls it (insertion of a new source, lookup by "
+            "key, one-shot removal by the source itself) for three symbolic keys at full width; (b) from every registry "
+            "state of 0..2 sources one public operation with symbolic flags / module state / token count behaves as a "
+            "set operation: new key inserted and polled iff RUNNING, present key -EEXIST without touching the present "
+            "source, bad parameters rejected without trace, present key removed with exactly its destructor effects "
+            "(AUTOFREE once, FD_AUTOCLOSE once, poll removal iff RUNNING), absent key fails without effect, tasks "
+            "cannot be deregistered, pause/resume keep the set, stop empties it, m_mod_src_len equals the set sizes "
+            "with library-internal sources excluded; (c) the same for topic subscriptions incl. in-place update",
+    "note": "poll layer, thread pool, close(), regcomp and m_ctx() are stubs (listed in evidence); identifying values in "
+            "the registry unit are per-job constants per order class (arbitrary values are quantified in the contract "
+            "unit and composed with C11); path sources: contract unit and non-searching operations only",
 }
